@@ -559,10 +559,10 @@ Lemma h_liquidate_effect w liqor liqee ab lb amount w' :
     liquidate_facts w liqor liqee ab lb amount ha hl ha' hl' ee er ee3 er3.
 Proof.
   intros H. unfold h_liquidate in H.
-  apply bind_ok in H as (u1 & Hamt & H). apply check_ok in Hamt.
-  apply bind_ok in H as (u2 & Hne & H). apply check_ok in Hne.
   apply bind_ok in H as (ha & Hha & H). apply bind_ok in H as (hl & Hhl & H).
   apply bind_ok in H as (u3 & _ & H).
+  apply bind_ok in H as (u1 & Hamt & H). apply check_ok in Hamt.
+  apply bind_ok in H as (u2 & Hne & H). apply check_ok in Hne.
   apply bind_ok in H as (ee & Hee & H). apply bind_ok in H as (er & Her & H).
   apply bind_ok in H as (u4 & _ & H). apply bind_ok in H as (u5 & _ & H). apply bind_ok in H as (u6 & _ & H).
   apply bind_ok in H as (u7 & _ & H). apply bind_ok in H as (u8 & _ & H). apply bind_ok in H as (u9 & _ & H).
